@@ -413,7 +413,10 @@ def judge(case):
             mutated = mutate_pattern(pattern, 'rename-id', case['index'], code) or mutate_pattern(pattern, 'literal', case['index'], code)
             if mutated is not None:
                 # make the changed content certainly foreign
-                mutated = mutated.replace('_other', '_foreign_zq')
+                # ... in one of several shapes, including concrete names that merely look like placeholders (_a_b, __a__b, ___a)
+                shape = ['%s_foreign_zq', '_%s_foreign_zq', '__%s__foreign_zq', '___%s_foreign_zq'][case['index'] % 4]
+                mutated = re.sub(r'\b(\w+?)_other\b', lambda m: shape % m.group(1).strip('_'), mutated)
+                classes.append('foreign-name-shape=%d' % (case['index'] % 4))
         if mutated is None or ('brand_new_name_zq' not in mutated and '_foreign_zq' not in mutated):
             kind = 'a'
         else:
